@@ -2,10 +2,10 @@ SPECIFICATION Spec
 CONSTANTS
   Mode = "single"
   NMax = 3
-  Hi = 4
+  Hi = 7
   NSmall = 3
   Stride = 1
-  CheckDef = TRUE
+  CheckDef = FALSE
 INVARIANT ThDef
 INVARIANT ThSort
 INVARIANT ThShape
